@@ -61,6 +61,8 @@ TARGETS = [
     ("d_try_set_data", "cstree/src/syntax/node.rs", "SyntaxNode", None, "try_set_data"),
     ("d_get_data", "cstree/src/syntax/node.rs", "SyntaxNode", None, "get_data"),
     ("d_clear_data", "cstree/src/syntax/node.rs", "SyntaxNode", None, "clear_data"),
+    ("n_get_or_add_node", "cstree/src/syntax/node.rs", "SyntaxNode", None, "get_or_add_node"),
+    ("n_get_or_add_element", "cstree/src/syntax/node.rs", "SyntaxNode", None, "get_or_add_element"),
     ("i_get_or_intern", "cstree/src/interning/traits.rs", "Interner", "trait", "get_or_intern"),
     ("i_resolve", "cstree/src/interning/traits.rs", "Resolver", "trait", "resolve"),
     ("i_fwd_get_or_intern", "cstree/src/interning/traits.rs", "I", "Interner", "get_or_intern"),
